@@ -21,9 +21,13 @@ where
     CS::Expander: for<'a> ExpandMsg<'a>,
 {
     match prop {
-        "C01" => gen_sig::c01::<CS>(h),
+        "C01" => {
+            gen_sig::c01::<CS>(h);
+            gen_sig::interleave_dispatch(h, "C01");
+        }
         "C02" => {
             gen_sig::c02::<CS>(h);
+            gen_sig::interleave_dispatch(h, "C02");
             use zkryptium::bbsplus::ciphersuites::{Bls12381Sha256, Bls12381Shake256};
             if h.suite == "sha" {
                 gen_sig::cross_suite_sig::<Bls12381Sha256, Bls12381Shake256>(h)
@@ -32,15 +36,27 @@ where
             }
         }
         "C12" => gen_sig::c12::<CS>(h),
-        "C03" => gen_proof::c03::<CS>(h),
+        "C03" => {
+            gen_proof::c03::<CS>(h);
+            gen_sig::interleave_dispatch(h, "C03");
+        }
         "C04" => gen_proof::c04::<CS>(h),
-        "C05" => gen_blind::c05::<CS>(h),
+        "C05" => {
+            gen_blind::c05::<CS>(h);
+            gen_sig::interleave_dispatch(h, "C05");
+        }
         "C06" => gen_blind::c06::<CS>(h),
         "C07" => gen_misc::c07::<CS>(h),
         "C08" => gen_codec::c08::<CS>(h),
         "C09" => gen_codec::c09::<CS>(h),
-        "C10" => gen_misc::c10::<CS>(h),
-        "C11" => gen_misc::c11::<CS>(h),
+        "C10" => {
+            gen_misc::c10::<CS>(h);
+            gen_sig::interleave_dispatch(h, "C10");
+        }
+        "C11" => {
+            gen_misc::c11::<CS>(h);
+            gen_sig::interleave_dispatch(h, "C11");
+        }
         "corpus" => gen_misc::corpus::<CS>(h),
         _ => panic!("unknown property {}", prop),
     }
